@@ -471,7 +471,7 @@ impl Prop for C20 {
         if env.tier == Tier::Thorough {
           years.extend((1..=9998).filter(|y| y % 25 == 0 && !(1900..=2100).contains(y)));
         }
-        years.extend([8, 9, 23, 24, 25, 236, 237, 239, 240].iter());
+        years.extend([8, 9, 19, 23, 24, 25, 236, 237, 239, 240].iter());
         for (j, y) in years.iter().enumerate() {
           if j % nshards != shard {
             continue;
